@@ -1,4 +1,5 @@
 import Gallia.Proofs.Lemmas.Config
+import Gallia.Proofs.Lemmas.ConfigFile
 import Gallia.Gen.C18Options
 /-
   C18 — Settings resolve CLI > env > file > default; a stored config re-creates the run.
@@ -33,52 +34,194 @@ theorem resolve_none_iff {α} (c e f d : Option α) : resolve c e f d = none ↔
 
 /-! ### validity layer -/
 
-/-- an invalid value of the winning provider is rejected with that provider named - whatever the lower providers and
-    the default would have offered, it is never skipped in their favour -/
+/-- value a provider's raw input validates to, if it does -/
+def valid? (fld : Field) (r : Option Raw) : Option Val :=
+  r.bind (fun r => match provided fld r with | .ok v => some v | .error _ => none)
+
+/-- an invalid value of the winning provider is rejected - whatever the lower providers and the default would have
+    offered, it is never skipped in their favour. The message names the provider `blame` finds: the one whose value
+    equals the reported input, else the command line -/
+theorem invalid_rejected_blame (fld : Field) (c e f : Option Raw) (d : Option Val) (src : Source) (r : Raw) (m : Msg)
+    (hw : argValue c (offered fld (extraDefault e f)) = some (src, r)) (hbad : provided fld r = .error m) :
+    effective fld c e f d = .rejected (blame (reported fld.kind r) (extraDefault e f)) m := by
+  simp only [effective, hw, hbad]
+
+/-- a value that is validated as a whole is reported as a whole -/
+theorem reported_whole (k : Kind) (r : Raw) (h : ∀ xs, r ≠ .list xs) : reported k r = r := by
+  cases r <;> first | (cases k <;> rfl) | exact absurd rfl (h _)
+
+/-- ... and when the command line did not hand over the very same text as the environment / the file, the provider
+    named is the winner (`hdist`); the values the environment and the file provide for the options of the shipped
+    commands are never lists validated element by element (`hwhole`) -/
 theorem invalid_names_source (fld : Field) (c e f : Option Raw) (d : Option Val) (src : Source) (r : Raw) (m : Msg)
-    (hw : resolve c e f none = some (src, r)) (hbad : provided fld r = .error m) :
+    (hpos : fld.positional = false)
+    (hw : resolve c e f none = some (src, r)) (hbad : provided fld r = .error m)
+    (hdist : src = .cli → ∀ s x, extraDefault e f = some (s, x) → x ≠ reported fld.kind r)
+    (hwhole : src ≠ .cli → reported fld.kind r = r) :
     effective fld c e f d = .rejected src m := by
   cases c <;> cases e <;> cases f <;>
-    simp_all [resolve, effective, argValue, extraDefault] <;>
-    (obtain ⟨rfl, rfl⟩ := hw; simp [hbad])
+    simp_all [resolve, effective, argValue, extraDefault, offered, blame] <;>
+    (obtain ⟨rfl, rfl⟩ := hw; simp_all)
+
+/-- the provider named in a rejection gave exactly the reported input: either it is the command line and its value
+    was refused, or it is the environment / the file and holds the very text that was refused -/
+theorem blamed_holds_input (fld : Field) (c e f : Option Raw) (d : Option Val) (s : Source) (m : Msg)
+    (h : effective fld c e f d = .rejected s m) :
+    ∃ src r, argValue c (offered fld (extraDefault e f)) = some (src, r) ∧ provided fld r = .error m ∧
+      ((s = .cli ∧ ∀ x, extraDefault e f = some (src, x) → src ≠ .cli → x ≠ reported fld.kind r) ∨
+       extraDefault e f = some (s, reported fld.kind r)) := by
+  simp only [effective] at h
+  split at h
+  · rename_i src r hw
+    split at h
+    · cases h
+    · rename_i m' hbad
+      injection h with hs hm
+      subst hm
+      refine ⟨src, r, hw, hbad, ?_⟩
+      unfold blame at hs
+      split at hs
+      · rename_i s' r' hx
+        split at hs
+        · rename_i heq
+          right
+          have : r' = reported fld.kind r := by simpa using heq
+          rw [hx, this, hs]
+        · rename_i hne
+          left
+          refine ⟨hs.symm, ?_⟩
+          intro x hx2 _
+          rw [hx] at hx2
+          injection hx2 with hx2
+          injection hx2 with _ hx3
+          subst hx3
+          simpa using hne
+      · rename_i hx
+        left
+        refine ⟨hs.symm, ?_⟩
+        intro x hx2
+        rw [hx] at hx2
+        cases hx2
+  · split at h <;> cases h
+
+/-- the same invalid text on the command line and in the environment: the message names the environment, which does
+    hold that text (`blamed_holds_input`), although the command line was the winner -/
+example : effective { kind := .autoInt } (some (.atom (.str ['z']))) (some (.atom (.str ['z']))) none (some (.int 4))
+    = .rejected .env .notInt := by decide +kernel
 
 /-- ... and a valid one is the effective value, attributed to that provider -/
 theorem valid_winner_effective (fld : Field) (c e f : Option Raw) (d : Option Val) (src : Source) (r : Raw) (v : Val)
+    (hpos : fld.positional = false)
     (hw : resolve c e f none = some (src, r)) (hok : provided fld r = .ok v) :
     effective fld c e f d = .ok src v := by
   cases c <;> cases e <;> cases f <;>
-    simp_all [resolve, effective, argValue, extraDefault] <;>
+    simp_all [resolve, effective, argValue, extraDefault, offered] <;>
     (obtain ⟨rfl, rfl⟩ := hw; simp [hok])
 
 /-- the default is used exactly when all three providers are silent; without a default that is "missing" -/
 theorem default_only_when_silent (fld : Field) (d : Option Val) :
     effective fld none none none d = (match d with | some v => .ok .dflt v | none => .missing) := by
-  cases d <;> rfl
+  cases d <;> simp [effective, argValue, extraDefault, offered]
 
-/-- whatever is accepted is the validated value of the highest-priority provider that spoke, or the default when none did -/
+/-- whatever is accepted is the validated value of the highest-priority provider that spoke, or the default when none
+    did (for a positional argument: when the command line did not) -/
 theorem effective_ok_sound (fld : Field) (c e f : Option Raw) (d : Option Val) (src : Source) (v : Val)
+    (hpos : fld.positional = false)
     (h : effective fld c e f d = .ok src v) :
     (src = .dflt ∧ c = none ∧ e = none ∧ f = none ∧ d = some v) ∨
     (∃ r, resolve c e f none = some (src, r) ∧ provided fld r = .ok v) := by
   cases c <;> cases e <;> cases f <;> cases d <;>
-    simp_all [resolve, effective, argValue, extraDefault] <;>
+    simp_all [resolve, effective, argValue, extraDefault, offered] <;>
     (split at h <;> simp_all)
 
-theorem missing_iff (fld : Field) (c e f : Option Raw) (d : Option Val) :
+theorem missing_iff (fld : Field) (c e f : Option Raw) (d : Option Val) (hpos : fld.positional = false) :
     effective fld c e f d = .missing ↔ c = none ∧ e = none ∧ f = none ∧ d = none := by
-  cases c <;> cases e <;> cases f <;> cases d <;> simp [effective, argValue, extraDefault] <;> split <;> simp
+  cases c <;> cases e <;> cases f <;> cases d <;> simp [effective, argValue, extraDefault, offered, hpos] <;> split <;> simp
 
-/-- a value on the command line makes environment, file and default irrelevant (they are not even validated) -/
+/-- a positional argument is taken from the command line only: the environment and the file are not even offered to
+    argparse, and leaving it out is "missing" whatever they hold -/
+theorem positional_cli_only (fld : Field) (c e f : Option Raw) (d : Option Val) (hpos : fld.positional = true) :
+    (c = none → effective fld c e f d = (match d with | some v => .ok .dflt v | none => .missing)) ∧
+    (∀ r v, c = some r → provided fld r = .ok v → effective fld c e f d = .ok .cli v) := by
+  constructor
+  · intro hc; subst hc
+    cases d <;> simp [effective, argValue, offered, hpos]
+  · intro r v hc hok; subst hc
+    simp [effective, argValue, hok]
+
+/-- a valid value on the command line makes environment, file and default irrelevant (they are not even validated);
+    an invalid one is rejected whatever they hold -/
 theorem cli_overrides (fld : Field) (r : Raw) (e f : Option Raw) (d : Option Val) :
-    effective fld (some r) e f d = effective fld (some r) none none none := rfl
+    (∃ v, provided fld r = .ok v ∧ effective fld (some r) e f d = .ok .cli v) ∨
+    (∃ m s, provided fld r = .error m ∧ effective fld (some r) e f d = .rejected s m) := by
+  cases h : provided fld r with
+  | ok v => left; exact ⟨v, rfl, by simp [effective, argValue, h]⟩
+  | error m => right; exact ⟨m, blame (reported fld.kind r) (extraDefault e f), rfl, by simp [effective, argValue, h]⟩
 
 /-- an environment value makes file and default irrelevant -/
-theorem env_overrides (fld : Field) (r : Raw) (f : Option Raw) (d : Option Val) :
-    effective fld none (some r) f d = effective fld none (some r) none none := rfl
+theorem env_overrides (fld : Field) (r : Raw) (f : Option Raw) (d : Option Val) (hpos : fld.positional = false) :
+    effective fld none (some r) f d = effective fld none (some r) none none := by
+  simp [effective, argValue, extraDefault, offered, hpos, blame]
 
 /-- a file value makes the default irrelevant -/
-theorem file_overrides (fld : Field) (r : Raw) (d : Option Val) :
-    effective fld none none (some r) d = effective fld none none (some r) none := rfl
+theorem file_overrides (fld : Field) (r : Raw) (d : Option Val) (hpos : fld.positional = false) :
+    effective fld none none (some r) d = effective fld none none (some r) none := by
+  simp [effective, argValue, extraDefault, offered, hpos]
+
+/-- only the winning provider's value is validated: with a valid winner, whatever the providers of lower priority hold
+    - valid, invalid, nothing - the outcome is the same. (Reading of "an invalid value is rejected ... instead of being
+    ignored": the property speaks about the value precedence selects; a value that precedence does not select is not
+    examined - `GALLIA_DEPTH=zz gallia scan uds sessions --depth 5` runs with depth 5.) -/
+theorem losing_invalid_ignored (fld : Field) (r : Raw) (v : Val) (hok : provided fld r = .ok v) :
+    (∀ e f d, effective fld (some r) e f d = .ok .cli v) ∧
+    (fld.positional = false → ∀ f d, effective fld none (some r) f d = .ok .env v) ∧
+    (fld.positional = false → ∀ d, effective fld none none (some r) d = .ok .file v) := by
+  refine ⟨?_, ?_, ?_⟩
+  · intro e f d; simp [effective, argValue, hok]
+  · intro hpos f d; simp [effective, argValue, extraDefault, offered, hpos, hok]
+  · intro hpos d; simp [effective, argValue, extraDefault, offered, hpos, hok]
+
+/-- `precedence` for every field kind, on the raw inputs: when the winner's value is valid, the effective value is
+    the one `resolve` picks among the *validated* values of the providers - CLI > env > file > default -/
+theorem precedence_all_kinds (fld : Field) (c e f : Option Raw) (d : Option Val) (hpos : fld.positional = false)
+    (hwin : ∀ src r, resolve c e f none = some (src, r) → ∃ v, provided fld r = .ok v) :
+    effective fld c e f d =
+      (match resolve (valid? fld c) (valid? fld e) (valid? fld f) d with
+       | some (s, v) => .ok s v
+       | none => .missing) := by
+  cases c with
+  | some r =>
+    obtain ⟨v, hv⟩ := hwin .cli r (by simp [resolve, argValue])
+    simp [effective, argValue, resolve, valid?, hv]
+  | none =>
+    cases e with
+    | some r =>
+      obtain ⟨v, hv⟩ := hwin .env r (by simp [resolve, argValue, extraDefault])
+      simp [effective, argValue, extraDefault, offered, hpos, resolve, valid?, hv]
+    | none =>
+      cases f with
+      | some r =>
+        obtain ⟨v, hv⟩ := hwin .file r (by simp [resolve, argValue, extraDefault])
+        simp [effective, argValue, extraDefault, offered, hpos, resolve, valid?, hv]
+      | none =>
+        cases d <;> simp [effective, argValue, extraDefault, offered, resolve, valid?]
+
+/-- `precedence_all_kinds` and `losing_invalid_ignored` are not vacuous for the kinds added last: a HexInt, a list of
+    DDDI definitions, a list of services each win on the command line against an invalid environment value -/
+example : effective { kind := .hexInt } (some (.atom (.str ['-', '0', 'x', 'f', 'f']))) (some (.atom (.str ['z']))) none (some (.int 1))
+    = .ok .cli (.int (-255)) := by decide +kernel
+example : effective { kind := .tuples 3 } (some (.list [.str ['0', 'x', '1', '0', ':', '1', ':', '2'], .str ['1', ':', '2', ':', '3']]))
+    (some (.atom (.str ['1', ':', '2', ':', '3']))) none none = .ok .cli (.tuples [[16, 1, 2], [1, 2, 3]]) := by decide +kernel
+example : effective { kind := .enums [(['D', 'S', 'C'], 16), (['S', 'A'], 39)] } (some (.list [.str ['S', 'A'], .str ['0', 'x', '1', '0']]))
+    none none (some (.ints [16])) = .ok .cli (.ints [39, 16]) := by decide +kernel
+example : effective { kind := .int } none (some (.atom (.str [' ', '0', '0', '7', '.', '0']))) (some (.atom (.str ['z']))) (some (.int 3))
+    = .ok .env (.int 7) := by decide +kernel
+
+/-- no provider can give a `dict[str, Any]` option a value: the command line hands over a list, the environment a
+    string (the known finding about `gallia script vecu db --properties`) -/
+theorem dict_unprovidable (fld : Field) (h : fld.kind = .dict) (r : Raw) (hr : r ≠ .flag) :
+    provided fld r = .error .wrongShape := by
+  cases r <;> simp_all [provided, parse]
 
 /-- the hypotheses of `invalid_names_source` are satisfiable: `GALLIA_DEPTH=0xzz` with `depth = 5` in the file and a
     default of 4 is refused, naming the environment -/
@@ -164,6 +307,76 @@ theorem autoInt_prefixed (p : Char) (b : Nat) (n : Nat)
 
 example : parseAutoInt ['-', '0', 'x', '1', 'f'] = some (-31) := by decide +kernel
 
+/-- HexInt (`int(x, 16)`) reads a number back from its hexadecimal text, bare or with the `0x` prefix, with or without sign -/
+theorem hexInt_digits (n : Nat) :
+    parseHexInt (Nat.toDigits 16 n) = some (Int.ofNat n) ∧ parseHexInt ('-' :: Nat.toDigits 16 n) = some (-(Int.ofNat n)) ∧
+    parseHexInt ('0' :: 'x' :: Nat.toDigits 16 n) = some (Int.ofNat n) ∧
+    parseHexInt ('-' :: '0' :: 'x' :: Nat.toDigits 16 n) = some (-(Int.ofNat n)) := by
+  have hws := toDigits_noWs 16 (by omega) (by omega) n
+  have h1 := signed_of_mag parseMag16 _ n hws (parseMag16_digits n) (by
+    intro c t e
+    have hc : c ∈ Nat.toDigits 16 n := by rw [e]; simp
+    obtain ⟨d, hd, rfl⟩ := toDigits_mem 16 (by omega) (by omega) n hc
+    exact ⟨(digitChar_facts d hd).2.2.2.1, (digitChar_facts d hd).2.2.2.2⟩)
+  have h2 := signed_of_mag parseMag16 ('0' :: 'x' :: Nat.toDigits 16 n) n (by
+    intro c hc
+    simp only [List.mem_cons] at hc
+    rcases hc with rfl | rfl | hc
+    · decide
+    · decide
+    · exact hws c hc) (parseMag16_prefixed n).1 (by
+    intro c t e
+    injection e with e1 _
+    subst e1
+    decide)
+  exact ⟨h1.1, h1.2.1, h2.1, h2.2.1⟩
+
+example : parseHexInt [' ', '-', '0', 'X', '_', '1', 'f', ' '] = some (-31) := by decide +kernel
+
+/-- a plain `int` field (pydantic's lax mode) reads every integer back from its decimal text -/
+theorem laxInt_decimal (i : Int) : parseLaxInt (showInt i) = some i := by
+  have key : ∀ n, parseLaxInt (Nat.toDigits 10 n) = some (Int.ofNat n) ∧
+      (0 < n → parseLaxInt ('-' :: Nat.toDigits 10 n) = some (-(Int.ofNat n))) := by
+    intro n
+    obtain ⟨hz, hd, hu, hj⟩ := laxSteps_decimal n
+    have hdig := toDigits10_isDigit n
+    have hws : ∀ c ∈ Nat.toDigits 10 n, isWs c = false := fun c hc => (isDigit_not_special c (hdig c hc)).2.2.2.2
+    obtain ⟨c, t, e⟩ : ∃ c t, Nat.toDigits 10 n = c :: t := by
+      cases h : Nat.toDigits 10 n with
+      | nil => exact absurd h Nat.toDigits_ne_nil
+      | cons c t => exact ⟨c, t, rfl⟩
+    have hc := isDigit_not_special c (hdig c (by rw [e]; simp))
+    have hcm : c ≠ '-' := by simpa using hc.2.2.1
+    have hcp : c ≠ '+' := by simpa using hc.2.2.2.1
+    constructor
+    · have hs : strip (Nat.toDigits 10 n) = Nat.toDigits 10 n := strip_noWs _ hws
+      unfold parseLaxInt
+      simp only [hs]
+      rw [e] at hz hd hu hj ⊢
+      have hjs : jsonInt (c :: t) = some (Int.ofNat n) := by
+        unfold jsonInt
+        split
+        · rename_i t' heq
+          injection heq with h1 _
+          exact absurd h1 hcm
+        · simp [hj]
+      simp [hcp, hcm, hz, hd, hu, hjs]
+    · intro _
+      have hs : strip ('-' :: Nat.toDigits 10 n) = '-' :: Nat.toDigits 10 n :=
+        strip_noWs _ (by intro x hx; rcases List.mem_cons.mp hx with rfl | hx; decide; exact hws x hx)
+      unfold parseLaxInt
+      simp only [hs]
+      rw [e] at hz hd hu hj ⊢
+      simp [hcp, hcm, hz, hd, hu, jsonInt, hj]
+  cases i with
+  | ofNat n => exact (key n).1
+  | negSucc n =>
+    have := (key (n + 1)).2 (by omega)
+    simpa [showInt, showNat, Int.negSucc_eq] using this
+
+example : parseLaxInt [' ', '0', '0', '1', '_', '0', '.', '0', '0'] = some 10 := by decide +kernel
+example : parseLaxInt ['1', '.'] = none ∧ parseLaxInt ['0', 'x', '1'] = none ∧ parseLaxInt ['1', '_', '_', '0'] = none := by decide +kernel
+
 /-- HexBytes: the stored hex text (`hexlify`) parses back to the same bytes, any length -/
 theorem hexBytes_roundtrip (b : Bytes) : parse .hexBytes (.atom (.str (hexOf b))) = .ok (.bytes b) := by
   simp [parse, unhexChars_hexOf]
@@ -201,12 +414,13 @@ theorem loadKey_showInt (k : Int) : loadKey (showInt k) = some k := by
     validators can produce (AutoInt, plain int, enum by value, bool, str / Path / URI text, HexBytes, Ranges, Ranges2D,
     list[AutoInt], `None` of optional fields) -/
 theorem load_dump (fld : Field) (v : Val) (h : WellTyped fld v) : load fld (dump v) = .ok v := by
-  obtain ⟨kind, opt, cst⟩ := fld
+  obtain ⟨kind, opt, cst, pos⟩ := fld
   cases v with
   | none => simp_all [WellTyped, dump, load]
   | int i =>
     simp only [WellTyped] at h
-    rcases h with rfl | rfl | ⟨ms, rfl, hm⟩
+    rcases h with rfl | rfl | rfl | ⟨ms, rfl, hm⟩
+    · simp [dump, load, parse]
     · simp [dump, load, parse]
     · simp [dump, load, parse]
     · simp [dump, load, parse, enumLookup, hm]
@@ -227,7 +441,7 @@ theorem load_dump (fld : Field) (v : Val) (h : WellTyped fld v) : load fld (dump
     simp [dump, load, parse, unhexChars_hexOf]
   | ints l =>
     simp only [WellTyped] at h
-    rcases h with rfl | rfl
+    rcases h with rfl | rfl | ⟨ms, rfl, hm⟩
     · cases l with
       | nil => simp [dump, load, parse, allSome, intercalate, unravel]
       | cons a l =>
@@ -244,6 +458,17 @@ theorem load_dump (fld : Field) (v : Val) (h : WellTyped fld v) : load fld (dump
       split
       · rename_i is his; rw [this] at his; cases his; rfl
       · rename_i his; rw [this] at his; cases his
+    · have := parseEach_enums ms l hm
+      simp only [dump, load, parse]
+      rw [this]
+  | tuples l =>
+    simp only [WellTyped] at h
+    obtain ⟨n, rfl, hl⟩ := h
+    simp [dump, load, hl]
+  | dict t =>
+    simp only [WellTyped] at h
+    obtain ⟨rfl, ht⟩ := h
+    simp [dump, load, ht]
   | map m =>
     simp only [WellTyped] at h
     subst h
@@ -264,6 +489,236 @@ example : WellTyped { kind := .ranges2d } (.map [(1, some [2, 3]), (4, none)]) :
 example : WellTyped { kind := .autoInt, optional := true } .none := rfl
 example : load { kind := .ranges2d } (dump (.map [(1, some [2, 3]), (-4, none)])) = .ok (.map [(1, some [2, 3]), (-4, none)]) := by
   rfl
+
+/-! ### the stored configuration as a whole -/
+
+/-- a configuration that fits a schema: the same names in the same order, every value of its field's type -/
+def Conforms : List (Str × Field × Option Val) → List (Str × Val) → Prop
+  | [], [] => True
+  | (n, f, _) :: s, (n', v) :: c => n = n' ∧ WellTyped f v ∧ Conforms s c
+  | _, _ => False
+
+/-- the configuration stored in META.json / the database, fed back field by field, is the configuration: for every
+    schema (any number of fields of any kinds, names pairwise different) and every configuration that fits it -/
+theorem reload_store (schema : List (Str × Field × Option Val)) (cfg : List (Str × Val))
+    (hnd : (schema.map (·.1)).Nodup) (hc : Conforms schema cfg) :
+    reload schema (store cfg) = .ok cfg := by
+  -- generalise over fields already passed: their stored entries sit in front and carry other names
+  suffices h : ∀ (pre : List (Str × Val)), (∀ e ∈ pre, e.1 ∉ schema.map (·.1)) →
+      reload schema (store (pre ++ cfg)) = .ok cfg from h [] (by simp)
+  induction schema generalizing cfg with
+  | nil =>
+    cases cfg with
+    | nil => intro pre _; rfl
+    | cons _ _ => exact absurd hc (by simp [Conforms])
+  | cons e schema ih =>
+    obtain ⟨n, f, d⟩ := e
+    cases cfg with
+    | nil => exact absurd hc (by simp [Conforms])
+    | cons e' cfg =>
+      obtain ⟨n', v⟩ := e'
+      obtain ⟨rfl, hw, hrest⟩ := hc
+      simp only [List.map_cons, List.nodup_cons] at hnd
+      intro pre hpre
+      have hfind : lookupJ n (store (pre ++ (n, v) :: cfg)) = some (dump v) := by
+        induction pre with
+        | nil => simp [store, lookupJ]
+        | cons p pre ihp =>
+          obtain ⟨x, xv⟩ := p
+          have hx : x ≠ n := by
+            intro hxn
+            exact hpre (x, xv) (by simp) (by simp [hxn])
+          rw [List.cons_append, lookupJ_store_skip n x xv _ hx]
+          exact ihp (fun e he => hpre e (by simp [he]))
+      have hnext := ih cfg hnd.2 hrest (pre ++ [(n, v)]) (by
+        intro e he
+        rcases List.mem_append.mp he with he | he
+        · intro hmem
+          exact hpre e he (by simp [hmem])
+        · simp at he; subst he; exact hnd.1)
+      rw [List.append_assoc] at hnext
+      simp only [List.singleton_append] at hnext
+      simp only [reload, hfind, load_dump f v hw, hnext]
+
+/-- `reload_store` is not vacuous: a configuration with an enum stored by value, a list of DDDI definitions, an
+    optional field holding `None`, a dictionary and the enum list of the vecu's randomness parameters -/
+example : reload
+    [(['s'], { kind := .enum [(['R'], 34)] }, none), (['t'], { kind := .tuples 3 }, none), (['n'], { kind := .autoInt, optional := true }, none),
+     (['p'], { kind := .dict, optional := true }, none), (['m'], { kind := .enums [(['A'], 16), (['B'], 39)] }, none)]
+    (store [(['s'], .int 34), (['t'], .tuples [[4660, 1, 2], [1, 2, 3]]), (['n'], .none),
+            (['p'], .dict (.cons ['a'] (.leaf (.int 1)) .nil)), (['m'], .ints [16, 39])])
+    = .ok [(['s'], .int 34), (['t'], .tuples [[4660, 1, 2], [1, 2, 3]]), (['n'], .none),
+           (['p'], .dict (.cons ['a'] (.leaf (.int 1)) .nil)), (['m'], .ints [16, 39])] := by rfl
+
+/-! ### every line of a rejection message -/
+
+/-- the first line of the message is the one `effective` reports -/
+theorem blamedAll_head (k : Kind) (r : Raw) (extra : Option (Source × Raw)) :
+    (blamedAll k r extra).head? = some (blame (reported k r) extra) := by
+  have key : ∀ (bad : Atom → Bool) (xs : List Atom),
+      ((match xs.filter bad with | [] => [r] | bs => bs.map Raw.atom).map (fun i => blame i extra)).head?
+        = some (blame (match xs.find? bad with | some a => Raw.atom a | none => r) extra) := by
+    intro bad xs
+    induction xs with
+    | nil => rfl
+    | cons a xs ih =>
+      by_cases ha : bad a = true
+      · simp [ha]
+      · have ha' : bad a = false := by simpa using ha
+        simpa [List.filter_cons, ha'] using ih
+  unfold blamedAll reportedAll reported
+  cases k <;> cases r <;> first | rfl | exact key _ _
+
+/-! ### the file layer -/
+
+/-- an option has a gallia.toml key exactly when it has a config section (its own or its class's): without one the file
+    cannot configure it, whatever it holds (`unsectioned_ignores_file`) -/
+theorem configKey_none_iff (sect : Option Str) (name : Str) : configKey sect name = none ↔ sect = none := by
+  cases sect with
+  | none => simp [configKey]
+  | some s => simp [configKey]; split <;> simp
+
+/-- the key of an option is looked up at the parts of its section followed by its name -/
+theorem configKey_path (s name : Str) (hs : s ≠ []) (hname : ∀ c ∈ name, (c == '.') = false) (doc : Tree) :
+    fileValue doc (some s) name = getPath doc (splitOn '.' s ++ [name]) := by
+  have : s.isEmpty = false := by cases s <;> simp_all
+  simp only [fileValue, configKey, this, Bool.false_eq_true, if_false, Option.bind_some, getValue]
+  rw [splitOn_append_sep, splitOn_no_sep '.' name hname]
+  cases h : splitOn '.' s with
+  | nil => exact absurd h (splitOn_ne_nil _ _)
+  | cons x xs => rfl
+
+/-- `--template` written out and parsed back: every key the registry lists with a default is read back by
+    `Config.get_value` as that default - `false`, `0` and `""` included -/
+theorem template_roundtrip (reg : List (List Str × Option Tree)) (h : prefixFree (templateKeys reg) = true)
+    (k : List Str) (v : Tree) (hk : (k, some v) ∈ reg) : getPath (templateDoc reg) k = some v := by
+  have hkne : k ≠ [] := prefixFree_mem h (List.mem_map_of_mem (f := (·.1)) hk)
+  rw [getPath_eq_lookup _ _ hkne, templateDoc_eq]
+  exact lookup_templateDoc reg .nil h k v hk
+
+/-- a key the template only mentions in a comment (no default) is not set by it -/
+theorem template_commented_absent (reg : List (List Str × Option Tree)) (h : prefixFree (templateKeys reg) = true)
+    (k : List Str) (hk : (k, none) ∈ reg) : getPath (templateDoc reg) k = none := by
+  have hkne : k ≠ [] := prefixFree_mem h (List.mem_map_of_mem (f := (·.1)) hk)
+  rw [getPath_eq_lookup _ _ hkne, templateDoc_eq, lookup_templateDoc_commented reg .nil h k hk]
+  exact lookup_nil_tbl k
+
+example : getValue (templateDoc [([['g'], ['v']], some (.leaf (.int 0))), ([['g'], ['h'], ['x']], some (.leaf (.bool false))),
+    ([['g'], ['d']], none)]) ['g', '.', 'h', '.', 'x'] = some (.leaf (.bool false)) := by decide +kernel
+
+/-- a value that is present is returned whatever it is (`false` is not "absent"), a path through a value is absent -/
+example : getValue (.cons ['a'] (.cons ['b'] (.leaf (.bool false)) .nil) .nil) ['a', '.', 'b'] = some (.leaf (.bool false)) ∧
+    getValue (.cons ['a'] (.cons ['b'] (.leaf (.bool false)) .nil) .nil) ['a', '.', 'b', '.', 'c'] = none := by decide +kernel
+
+/-! ### which gallia.toml is picked -/
+
+/-- GALLIA_CONFIG decides alone: an existing file is taken, a missing one is an error - whatever the directories hold -/
+theorem env_file_decides (w : World) :
+    (w.envFile = .existing → search w = .file .env) ∧ (w.envFile = .missing → search w = .notFound) := by
+  constructor <;> intro h <;> simp [search, h]
+
+/-- without GALLIA_CONFIG the file picked is the first candidate - working directory, git root, user config directory,
+    extra paths, in this order - that holds a gallia.toml -/
+theorem discovery_order (w : World) (h : w.envFile = .unset) (p : Place) :
+    search w = .file p ↔
+      ∃ pre post, candidates w = pre ++ p :: post ∧ holds w p = true ∧ ∀ q ∈ pre, holds w q = false := by
+  simp only [search, h]
+  constructor
+  · intro hs
+    split at hs
+    · rename_i x hx
+      injection hs with hs; subst hs
+      exact find_split _ _ _ hx
+    · cases hs
+  · rintro ⟨pre, post, e, hp, hpre⟩
+    rw [e, find_first _ pre post p hp hpre]
+
+theorem discovery_nothing (w : World) (h : w.envFile = .unset) :
+    search w = .nothing ↔ ∀ q ∈ candidates w, holds w q = false := by
+  simp only [search, h]
+  constructor
+  · intro hs
+    split at hs
+    · cases hs
+    · rename_i hn
+      intro q hq
+      have := List.find?_eq_none.mp hn q hq
+      simpa using this
+  · intro hall
+    have : (candidates w).find? (holds w) = none := List.find?_eq_none.mpr (fun q hq => by simp [hall q hq])
+    simp [this]
+
+/-- the choice depends on nothing after the chosen candidate: two worlds with the same candidate list that agree on
+    which of the candidates up to and including the chosen one hold a file pick the same file -/
+theorem discovery_independent_of_later (w w2 : World) (h : w.envFile = .unset) (h2 : w2.envFile = .unset)
+    (pre post post2 : List Place) (p : Place)
+    (hc : candidates w = pre ++ p :: post) (hc2 : candidates w2 = pre ++ p :: post2)
+    (hp : holds w p = true) (hpre : ∀ q ∈ pre, holds w q = false)
+    (hagree : ∀ q ∈ pre ++ [p], holds w2 q = holds w q) :
+    search w = .file p ∧ search w2 = .file p := by
+  constructor
+  · exact (discovery_order w h p).mpr ⟨pre, post, hc, hp, hpre⟩
+  · refine (discovery_order w2 h2 p).mpr ⟨pre, post2, hc2, ?_, ?_⟩
+    · rw [hagree p (by simp), hp]
+    · intro q hq; rw [hagree q (by simp [hq]), hpre q hq]
+
+/-- only the candidates matter: directories between the working directory and the git root, and above it, are not
+    searched - two worlds with the same candidates that agree on them find the same file -/
+theorem discovery_only_candidates (w w2 : World) (he : w.envFile = w2.envFile) (hc : candidates w = candidates w2)
+    (hagree : ∀ q ∈ candidates w, holds w q = holds w2 q) : search w = search w2 := by
+  unfold search
+  rw [← he, ← hc, find_congr _ _ _ hagree]
+
+/-- the git root is the nearest directory, from the working directory upwards, that holds a `.git` -/
+theorem git_root_nearest (w : World) (n : Nat) (h : gitRoot w = some n) :
+    (∃ d, w.chain[n]? = some d ∧ d.hasGit = true) ∧ ∀ j, j < n → ∀ d, w.chain[j]? = some d → d.hasGit = false := by
+  obtain ⟨i, e, hd, hlt⟩ := gitRootFrom_spec w.chain 0 n h
+  have : n = i := by omega
+  subst this
+  exact ⟨hd, hlt⟩
+
+/-- the hypotheses are satisfiable: a gallia.toml in the parent directory is not found from a sub-directory unless
+    the parent is the git root; with the `.git` there it is found, and a file in the user directory loses against it -/
+example : search { chain := [⟨false, false⟩, ⟨false, true⟩], envFile := .unset, xdgSet := false, xdgToml := false, homeToml := true, extra := [] }
+    = .file .user := by decide +kernel
+example : search { chain := [⟨false, false⟩, ⟨true, true⟩], envFile := .unset, xdgSet := false, xdgToml := false, homeToml := true, extra := [] }
+    = .file (.up 1) := by decide +kernel
+
+/-! ### one option through all layers -/
+
+/-- an option without a config section resolves as if gallia.toml were empty -/
+theorem unsectioned_ignores_file (o : OptDecl) (h : o.sect = none) (cli : Option Raw) (environ : Str → Option Str) (doc : Tree)
+    (d : Option Val) : resolveOption o cli environ doc d = resolveOption o cli environ .nil d := by
+  simp [resolveOption, h, fileValue, configKey]
+
+/-- an option declared without gallia's `Field()` is configured by the command line and its default only -/
+theorem unconfigurable_cli_or_default (o : OptDecl) (h : o.configurable = false) (cli : Option Raw) (environ : Str → Option Str)
+    (doc : Tree) (d : Option Val) : resolveOption o cli environ doc d = effective o.field cli none none d := by
+  simp [resolveOption, h]
+
+/-- CLI > env > file > default through the layers: the environment variable `GALLIA_<NAME>` beats the key
+    `<section>.<name>` of gallia.toml, the command line beats both -/
+theorem layers_precedence (o : OptDecl) (hc : o.configurable = true) (hpos : o.field.positional = false)
+    (s name : Str) (hs : o.sect = some s) (hn : o.name = name) (environ : Str → Option Str) (doc : Tree) (d : Option Val)
+    (r : Raw) (v : Val) (hok : provided o.field r = .ok v) :
+    resolveOption o (some r) environ doc d = .ok .cli v ∧
+    (∀ t, environ (envName name) = some t → r = .atom (.str t) → resolveOption o none environ doc d = .ok .env v) ∧
+    (∀ tr, environ (envName name) = none → fileValue doc (some s) name = some tr → r = rawOfTree tr →
+      resolveOption o none environ doc d = .ok .file v) := by
+  subst hn
+  refine ⟨?_, ?_, ?_⟩
+  · simp [resolveOption, effective, argValue, hok]
+  · intro t ht hr
+    subst hr
+    simp [resolveOption, hc, ht, effective, argValue, extraDefault, offered, hpos, hok]
+  · intro tr he hf hr
+    subst hr
+    simp [resolveOption, hc, he, hs, hf, effective, argValue, extraDefault, offered, hpos, hok]
+
+/-- `depth = 7` under `[gallia.scanner]` is the effective value when neither `--depth` nor GALLIA_DEPTH is given -/
+example : resolveOption { name := "depth".toList, field := { kind := .autoInt }, sect := some "gallia.scanner".toList, configurable := true }
+    none (fun _ => none) (.cons "gallia".toList (.cons "scanner".toList (.cons "depth".toList (.leaf (.int 7)) .nil) .nil) .nil) (some (.int 4))
+    = .ok .file (.int 7) := by decide +kernel
 
 /-! ### facts about the option table regenerated from the live command tree -/
 
@@ -291,6 +746,38 @@ open Gallia.Gen.C18Options in
 /-- ... and every key the template prints belongs to some command's option -/
 theorem template_keys_all_used :
     ∀ k, k < nTemplateKeys → rows.any (fun r => r.key == some k) = true := by decide +kernel
+
+open Gallia.Gen.C18Options in
+/-- every option of every command has a field kind the model covers: an annotation the model lacks shows up in the
+    regenerated table as `unmodelled` and breaks this obligation -/
+theorem all_kinds_modelled : rows.all (fun r => r.tag != .unmodelled) = true := by decide +kernel
+
+/-- ... and every tag of the table stands for a kind of the model -/
+theorem tags_have_kinds (t : KindTag) (h : t ≠ .unmodelled) : ∃ k : Kind, k.tag = t := by
+  cases t <;> first
+    | exact absurd rfl h
+    | exact ⟨.bool, rfl⟩ | exact ⟨.int, rfl⟩ | exact ⟨.autoInt, rfl⟩ | exact ⟨.hexInt, rfl⟩ | exact ⟨.text, rfl⟩
+    | exact ⟨.opaque, rfl⟩ | exact ⟨.hexBytes, rfl⟩ | exact ⟨.ranges, rfl⟩ | exact ⟨.ranges2d, rfl⟩ | exact ⟨.enum [], rfl⟩
+    | exact ⟨.choice [], rfl⟩ | exact ⟨.autoInts, rfl⟩ | exact ⟨.tuples 0, rfl⟩ | exact ⟨.enums [], rfl⟩ | exact ⟨.dict, rfl⟩
+
+open Gallia.Gen.C18Options in
+/-- the kinds whose lists are validated element by element (where a rejection reports the element, not the list) are
+    not read from gallia.toml by any shipped command: for the file the whole-value attribution of `invalid_names_source` applies -/
+theorem elementwise_kinds_not_in_file :
+    rows.all (fun r => !(r.tag == .autoInts || r.tag == .enums || r.tag == .tuples) || r.key.isNone) = true := by decide +kernel
+
+open Gallia.Gen.C18Options in
+/-- no positional argument has a gallia.toml key (the file could not provide it anyway: `positional_cli_only`) -/
+theorem positional_not_in_file : rows.all (fun r => !r.positional || r.key.isNone) = true := by decide +kernel
+
+open Gallia.Gen.C18Options in
+/-- the keys of the live registry are prefix free: `template_roundtrip` applies to the template gallia really prints -/
+theorem registry_prefix_free : prefixFree (registry.map (·.1)) = true := by decide +kernel
+
+open Gallia.Gen.C18Options in
+/-- no two options of one command share a name (`reload_store` looks the stored values up by name) -/
+theorem option_names_unique_per_command :
+    ∀ c, c < commands.length → ((rows.filter (·.cmd == c)).map (·.opt)).Nodup := by decide +kernel
 
 open Gallia.Gen.C18Options in
 /-- every row refers to a command of the tree -/
